@@ -92,7 +92,10 @@ def monitor(x, spec: dict, dp: t.Dict[str, int]) -> t.List[tuple]:
     names = list(spec['nodes'])
     for a, b in itertools.combinations(names, 2):
         if deps[a] == deps[b] and deps[a] and spec['nodes'][a]['mode'] != 'inline' and spec['nodes'][b]['mode'] != 'inline':
-            if not (start_pos[a] < end_pos[b] and start_pos[b] < end_pos[a]):
+            if any(n not in start_pos or n not in end_pos for n in (a, b)):
+                out.append(('siblings-serialised', f'{a} and {b} have the same dependencies; no start/end pair was observed for '
+                                                   f'{[n for n in (a, b) if n not in start_pos or n not in end_pos]} although the run succeeded'))
+            elif not (start_pos[a] < end_pos[b] and start_pos[b] < end_pos[a]):
                 out.append(('siblings-serialised', f'{a} and {b} have the same dependencies but were not in flight together'))
     return out
 
